@@ -87,17 +87,22 @@ static void probe_plin(OggVorbis_File *vf,vfile *F,char *out,size_t outn){
 }
 
 /* concatenation probe (works for streaming handles too): everything read from here to the
- * end must be the tail of the reference, link by link; positions are not consulted */
+ * end must be the tail of the reference, link by link; positions must be non-negative and advance by 1<<hs per sample inside a link */
 static void probe_pcat(OggVorbis_File *vf,vfile *F,char *out,size_t outn){
   int hs=(vf->vi&&vf->vi->codec_setup)?((codec_setup_info*)vf->vi->codec_setup)->halfrate_flag:0;
   refdec *r; long nread=0; int curlink=-1; long idx=0; int lastbs=-1; int holes=0;
   if(hs){ need_href(F); r=&F->href; } else { need_ref(F); r=&F->ref; }
   if(!r->ok){ snprintf(out,outn,"noref"); return; }
+  { long t0=(long)ov_pcm_tell(vf); if(t0<0){ snprintf(out,outn,"bad:negtell_before_read:%ld",t0); return; } }
   while(1){
-    float **pcm; int bs=-1; long n=ov_read_float(vf,&pcm,4096,&bs); int c;
+    float **pcm; int bs=-1; long tb=(long)ov_pcm_tell(vf); long n=ov_read_float(vf,&pcm,4096,&bs); int c; long ta=(long)ov_pcm_tell(vf);
     if(n==0)break;
     if(n==OV_HOLE){ holes++; if(holes>1000)break; continue; }
     if(n<0){ snprintf(out,outn,"bad:readerr%ld:%ld",n,nread); return; }
+    /* positions: full-rate units, advancing by 1<<hs per sample returned (judged when the read stayed inside one link) */
+    /* (first link only: on a streaming handle a later link's positions are re-anchored by its first page with a granule position, full rate or not) */
+    if(curlink<=0&&(lastbs<0||bs==lastbs)&&ta!=tb+(n<<hs)){ snprintf(out,outn,"bad:advance:%ld+%ld->%ld",tb,n,ta); return; }
+    if(ta<0||(hs&&curlink<=0&&(tb&1))){ snprintf(out,outn,"bad:tell:%ld->%ld",tb,ta); return; }
     if(bs!=lastbs){ curlink++; idx=0; lastbs=bs; while(curlink<r->nlinks&&r->len[curlink]==0)curlink++; }
     if(curlink>=r->nlinks){ snprintf(out,outn,"bad:extralink:%ld",nread); return; }
     if(ov_info(vf,-1)->channels!=r->ch[curlink]){ snprintf(out,outn,"bad:channels:%ld",nread); return; }
